@@ -25,7 +25,7 @@ EOf(dg)   == HashToScalarB(HB(dg))                         \* <<"ok", e>> / <<"e
 
 Classes == {"r_zero", "s_zero", "high_s_rej", "high_s_acc", "x_ge_n", "R_inf", "e_zero", "digest_ge_n", "digest_short",
             "digest_long", "digest_huge", "accept", "reject", "enc_asn1", "enc_compact", "enc_rec", "enc_bogus", "rec_wrong_v", "btc_accept",
-            "btc_badenv", "btc_high_s", "hash_mismatch", "parse_reject", "pub_from_recycled_point", "cmp_shift_n", "digest_scribbled", "kept_key", "rfc6979_short_nonce", "alt_path", "nil_opts",
+            "btc_badenv", "btc_high_s", "hash_mismatch", "hash_exotic_accept", "parse_reject", "pub_from_recycled_point", "cmp_shift_n", "digest_scribbled", "kept_key", "rfc6979_short_nonce", "alt_path", "nil_opts",
             "d_one", "d_nm1", "pub_yodd", "pub_yeven", "digest_zero", "digest_ones", "neg_s", "noneg_s", "v0", "v1",
             "sv_same", "build_der", "build_short", "build_compact", "inadmissible_len", "inadmissible_enc", "rfc6979", "hedged", "split_key", "sign_len_long",
             "reader_short_reads", "reader_fail_0", "reader_fail_mid", "reader_fail_31", "reader_err_with_last", "reader_ok",
@@ -130,6 +130,7 @@ Verdict(ev) ==
          << KeyOK(ev.q) /\ (ev.out <=> want),
             EncClass(eff) \cup (IF ev.out THEN {"accept"} ELSE {"reject"}) \cup (IF ~ev.hasopts THEN {"nil_opts"} ELSE {})
             \cup (IF ev.hasopts /\ Len(dg) # ev.hash THEN {"hash_mismatch"} ELSE {})
+            \cup (IF Has(ev, "hashid") /\ ev.hashid >= 8 /\ want THEN {"hash_exotic_accept"} ELSE {})      \* a selector of a hash nobody links only sizes the digest
             \cup (IF p[1] = "err" THEN {"parse_reject"} ELSE
                     (IF SGreaterThanHalfN(p[3]) /\ ev.hasopts /\ ev.rejmal /\ ~ev.out THEN {"high_s_rej"} ELSE {})
                     \cup (IF SGreaterThanHalfN(p[3]) /\ ev.out THEN {"high_s_acc"} ELSE {})
